@@ -8,6 +8,7 @@
 #include <stdlib.h>
 #include <string.h>
 #include <unistd.h>
+#include <time.h>
 #include <sys/stat.h>
 #include <atomic>
 #include <chrono>
@@ -276,10 +277,11 @@ static json timed_call(json q, int tid, const std::vector<json>* prev) {
 	if (prev) resolve(q, *prev);
 	if (g_trace) { std::string l = q.dump(); fprintf(g_trace, "%d %s\n", tid, l.c_str()); fflush(g_trace); }
 	ip_set_current(q.value("fn", std::string("?")).c_str(), q.value("id", (int64_t)-1));
+	struct timespec ts0, ts1; clock_gettime(CLOCK_MONOTONIC, &ts0);   // system-wide clock: orders calls of DIFFERENT processes (C15)
 	uint64_t t0 = ++g_clock; json r;
 	try { r = call(q); } catch (const json::exception& e) { r["error"] = std::string("bad request: ") + e.what(); r["rv"] = -1; }
-	uint64_t t1 = ++g_clock; ip_set_current("", -1);
-	r["t_call"] = t0; r["t_ret"] = t1; if (q.contains("id")) r["id"] = q["id"];
+	uint64_t t1 = ++g_clock; ip_set_current("", -1); clock_gettime(CLOCK_MONOTONIC, &ts1);
+	r["t_call"] = t0; r["t_ret"] = t1; r["ns_call"] = (uint64_t)ts0.tv_sec * 1000000000ULL + ts0.tv_nsec; r["ns_ret"] = (uint64_t)ts1.tv_sec * 1000000000ULL + ts1.tv_nsec; if (q.contains("id")) r["id"] = q["id"];
 	return r;
 }
 
